@@ -212,7 +212,10 @@ pub fn apply_add(p: &mut Psbt, s: &Setup, op: &Op) -> Result<(), Failure> {
             }
             let before = p.inputs[*i].clone();
             match guard("update_input_with_descriptor", || p.update_input_with_descriptor(*i, &s.libs[*i]))? {
-                Ok(()) => check_update(p, s, *i)?,
+                Ok(()) => {
+                    check_update(p, s, *i)?;
+                    check_sighash(p, s, *i)?;
+                }
                 Err(e) => {
                     if p.inputs[*i] != before {
                         return fail("update-failed-but-mutated", format!("update_input_with_descriptor failed ({}) but changed the input", e));
@@ -432,6 +435,104 @@ fn check_final_valid(p: &Psbt, s: &Setup, i: usize) -> Result<(), Failure> {
             format!("input {} ({}) was finalized with scriptSig {:?} / witness {:?} which does not validate: {:?}", i, s.descs[i].print(true), p.inputs[i].final_script_sig, p.inputs[i].final_script_witness, e),
         ),
     }
+}
+
+/// (j) sighash_msg gives the digest the input's signatures were made for (the signatures of the
+/// setup were made with rust-bitcoin's SighashCache over own script codes / leaf hashes).
+fn check_sighash(p: &Psbt, s: &Setup, i: usize) -> Result<(), Failure> {
+    let secp = Secp256k1::verification_only();
+    let mut cache = bitcoin::sighash::SighashCache::new(&p.unsigned_tx);
+    let kind = s.descs[i].kind();
+    for (kb, sig) in &s.sats[i].ecdsa {
+        let msg = match guard("sighash_msg", || p.sighash_msg(i, &mut cache, None))? {
+            Ok(m) => m.to_secp_msg(),
+            Err(e) => return fail(&format!("sighash-msg-fails/{}", kind), format!("sighash_msg({}) fails on an updated input: {}", i, e)),
+        };
+        let pk = secp256k1::PublicKey::from_slice(kb).map_err(|e| Failure { sig: "key".into(), msg: e.to_string() })?;
+        if secp.verify_ecdsa(&msg, &sig.signature, &pk).is_err() {
+            return fail(&format!("sighash-msg-differs/{}", kind), format!("the ECDSA signature made for input {} ({}) does not verify against sighash_msg()", i, s.descs[i].print(true)));
+        }
+    }
+    if let Some(sig) = &s.sats[i].tap_key {
+        let msg = match guard("sighash_msg", || p.sighash_msg(i, &mut cache, None))? {
+            Ok(m) => m.to_secp_msg(),
+            Err(e) => return fail(&format!("sighash-msg-fails/{}", kind), format!("sighash_msg({}, key path) fails: {}", i, e)),
+        };
+        let spk = &s.prevouts[i].script_pubkey;
+        if spk.len() == 34 {
+            if let Ok(ok) = secp256k1::XOnlyPublicKey::from_slice(&spk.as_bytes()[2..34]) {
+                if secp.verify_schnorr(&sig.signature, &msg, &ok).is_err() {
+                    return fail(&format!("sighash-msg-differs/{}/key-path", kind), format!("the key-path signature of input {} does not verify against sighash_msg(None)", i));
+                }
+            }
+        }
+    }
+    for ((x, lh), sig) in &s.sats[i].tap_leaf {
+        let msg = match guard("sighash_msg", || p.sighash_msg(i, &mut cache, Some(TapLeafHash::from_byte_array(*lh))))? {
+            Ok(m) => m.to_secp_msg(),
+            Err(e) => return fail(&format!("sighash-msg-fails/{}", kind), format!("sighash_msg({}, leaf) fails: {}", i, e)),
+        };
+        if let Ok(xo) = secp256k1::XOnlyPublicKey::from_slice(x) {
+            if secp.verify_schnorr(&sig.signature, &msg, &xo).is_err() {
+                return fail(&format!("sighash-msg-differs/{}/leaf", kind), format!("a leaf signature of input {} does not verify against sighash_msg(Some(leaf))", i));
+            }
+        }
+    }
+    Ok(())
+}
+
+/// (k) update_output_with_descriptor records the descriptor's scripts and taproot data, and
+/// refuses (leaving the output untouched) when the output does not pay to the descriptor.
+fn check_output_update(s: &Setup, j: usize) -> Result<(), Failure> {
+    let d = &s.descs[j];
+    let lib = &s.libs[j];
+    let kind = d.kind();
+    let sc = d.scripts().map_err(|e| Failure { sig: "mirror-encode".into(), msg: e })?;
+    let mut p = s.psbt.clone();
+    let before = p.outputs[0].clone();
+    if guard("update_output_with_descriptor", || p.update_output_with_descriptor(0, lib))?.is_ok() {
+        return fail(&format!("output-update-wrong-spk/{}", kind), "update_output_with_descriptor succeeded although the output pays elsewhere".to_string());
+    }
+    if p.outputs[0] != before {
+        return fail("output-update-failed-but-mutated", "a refused output update changed the output".to_string());
+    }
+    p.unsigned_tx.output[0].script_pubkey = ScriptBuf::from_bytes(sc.spk.clone());
+    if let Err(e) = guard("update_output_with_descriptor", || p.update_output_with_descriptor(0, lib))? {
+        return fail(&format!("output-update-fails/{}", kind), format!("update_output_with_descriptor fails on the descriptor's own scriptPubKey: {}", e));
+    }
+    let o = &p.outputs[0];
+    let want_redeem = if matches!(d, MDesc::Sh(_) | MDesc::ShWpkh(_) | MDesc::ShWsh(_)) { sc.redeem.clone() } else { None };
+    if o.redeem_script.as_ref().map(|x| x.as_bytes().to_vec()) != want_redeem {
+        return fail(&format!("output-update-redeem-script/{}", kind), format!("output redeem script {:?}", o.redeem_script));
+    }
+    let want_ws = if matches!(d, MDesc::Wsh(_) | MDesc::ShWsh(_)) { sc.witness_script.clone() } else { None };
+    if o.witness_script.as_ref().map(|x| x.as_bytes().to_vec()) != want_ws {
+        return fail(&format!("output-update-witness-script/{}", kind), format!("output witness script {:?}", o.witness_script));
+    }
+    if let MDesc::Tr(ik, tree) = d {
+        let ikb = key_bytes(ik, Ctx::Tap).map_err(|e| Failure { sig: "key".into(), msg: e })?;
+        if o.tap_internal_key.map(|k| k.serialize().to_vec()) != Some(ikb) {
+            return fail("output-update-internal-key", "output tap_internal_key is not the descriptor's".to_string());
+        }
+        match (tree, &o.tap_tree) {
+            (None, None) => {}
+            (Some(t), Some(tt)) => {
+                let model = t.to_model().map_err(|e| Failure { sig: "mirror-encode".into(), msg: e })?;
+                let mut want: Vec<(usize, Vec<u8>)> = model.leaves().into_iter().map(|(dp, sc2, _)| (dp, sc2)).collect();
+                let mut got: Vec<(usize, Vec<u8>)> = tt.script_leaves().map(|l| (l.merkle_branch().len(), l.script().as_bytes().to_vec())).collect();
+                want.sort();
+                got.sort();
+                if want != got {
+                    return fail("output-update-tap-tree", format!("output tap_tree has leaves {:?}, the descriptor {:?}", got.iter().map(|x| x.0).collect::<Vec<_>>(), want.iter().map(|x| x.0).collect::<Vec<_>>()));
+                }
+            }
+            (Some(_), None) => return fail("output-update-tap-tree", "the descriptor has a script tree, the updated output has no tap_tree".to_string()),
+            (None, Some(_)) => return fail("output-update-tap-tree", "tap_tree recorded for a key-only descriptor".to_string()),
+        }
+    } else if o.tap_internal_key.is_some() || o.tap_tree.is_some() {
+        return fail("output-update-taproot-fields", "taproot fields recorded for a non-taproot output".to_string());
+    }
+    Ok(())
 }
 
 /// The satisfier that holds exactly what input `i` of the PSBT carries (signatures, preimages),
@@ -659,7 +760,7 @@ fn run(s: &Setup, ops: &[Op], rep: &mut Report, classes: bool) -> Result<Psbt, F
 impl Check for C14 {
     fn id(&self) -> &'static str { "C14" }
     fn rule(&self) -> String {
-        "case = PSBT with 1-3 inputs, each spending an output of a random sane definite descriptor (hex and xpub keys with origins; witness_utxo / non_witness_utxo as the type requires), all signatures made for the actual unsigned transaction; history = up to 14 operations from {update_input_with_descriptor(i), add signature k of input i, add preimages(i), add unknown field(i), finalize_mut, finalize_mall_mut, finalize_inp_mut(i), finalize_inp_mall_mut(i), extract}; a twin history with the add-operations of every run shuffled. Invariants after every step: newly final inputs validate in the reference interpreter (standardness flags) inside the actual transaction and carry no signing data; final inputs never change; a finalize that does not finalize an input leaves it deep-equal; finalize twice == once; finalize(_mall)_mut returns Ok exactly when every input is final afterwards and finalize_inp(_mall)_mut(i) exactly when input i is (already-final inputs are skipped, never errors); finalize_inp(_mall)_mut(i) leaves input i exactly as finalize(_mall)_mut would; the finalizer agrees with the descriptor's own satisfier holding exactly the input's signatures / preimages in the same transaction: same verdict (for inputs that carry their scripts and key origins) and same witness per mode (for taproot: the stack of the leaf used equals that leaf's satisfaction in that mode); extract Ok => all inputs final and valid, transaction == unsigned tx + final fields, PSBT unchanged; after update: redeem/witness scripts, key origins (own BIP32), tap internal key / merkle root / control blocks / per-key leaf hashes equal the independent model; twin histories end in byte-identical PSBTs. Non-trivial = histories with a failing finalize followed by a successful one for the same input, or >= 2 finalize calls, or a reordered twin; distinct by (descriptors, history).".into()
+        "case = PSBT with 1-3 inputs, each spending an output of a random sane definite descriptor (hex and xpub keys with origins; witness_utxo / non_witness_utxo as the type requires), all signatures made for the actual unsigned transaction; history = up to 14 operations from {update_input_with_descriptor(i), add signature k of input i, add preimages(i), add unknown field(i), finalize_mut, finalize_mall_mut, finalize_inp_mut(i), finalize_inp_mall_mut(i), extract}; a twin history with the add-operations of every run shuffled. Invariants after every step: newly final inputs validate in the reference interpreter (standardness flags) inside the actual transaction and carry no signing data; final inputs never change; a finalize that does not finalize an input leaves it deep-equal; finalize twice == once; finalize(_mall)_mut returns Ok exactly when every input is final afterwards and finalize_inp(_mall)_mut(i) exactly when input i is (already-final inputs are skipped, never errors); finalize_inp(_mall)_mut(i) leaves input i exactly as finalize(_mall)_mut would; the finalizer agrees with the descriptor's own satisfier holding exactly the input's signatures / preimages in the same transaction: same verdict (for inputs that carry their scripts and key origins) and same witness per mode (for taproot: the stack of the leaf used equals that leaf's satisfaction in that mode); after update: sighash_msg(i, leaf?) is the digest the input's ECDSA / key-path / leaf signatures verify against; update_output_with_descriptor records redeem / witness script, internal key and tap tree (leaf depths and scripts) of the descriptor and refuses an output that pays elsewhere without touching it; extract Ok => all inputs final and valid, transaction == unsigned tx + final fields, PSBT unchanged; after update: redeem/witness scripts, key origins (own BIP32), tap internal key / merkle root / control blocks / per-key leaf hashes equal the independent model; twin histories end in byte-identical PSBTs. Non-trivial = histories with a failing finalize followed by a successful one for the same input, or >= 2 finalize calls, or a reordered twin; distinct by (descriptors, history).".into()
     }
     fn lanes(&self, tier: Tier) -> Vec<(&'static str, usize, usize)> {
         match tier {
@@ -675,6 +776,7 @@ impl Check for C14 {
                 return Ok(());
             }
         };
+        check_output_update(&s, src.below(s.descs.len()))?;
         let ops = gen_ops(src, &s);
         rep.desc = format!("{} | {:?}", s.descs.iter().map(|d| d.print(true)).collect::<Vec<_>>().join(" ; "), ops);
         let end = run(&s, &ops, rep, true)?;
